@@ -96,8 +96,10 @@ class PITDilationMasker(nn.Module):
         c_gamma = torch.tensor(c_gamma, dtype=torch.float32)
         # transpose & flip
         c_gamma = torch.transpose(c_gamma, 0, 1)
-        # everything on the time-axis is flipped with respect to the paper
-        # c_gamma = torch.fliplr(c_gamma)
+        # everything on the time-axis is flipped with respect to the paper: the comb must be
+        # anchored at the last (most recent) time-step, the one kept alive by the timestep masker
+        # and the one gamma_norm and the exported (causally padded) layer assume
+        c_gamma = torch.flipud(c_gamma)
         return c_gamma
 
     @property
